@@ -294,6 +294,23 @@ var opMuts = []opMut{
 			b.Signed["deltaHash"] = other
 		}
 	}},
+	{"delta/hash-lenient-base64-sibling", "cur", func(r *rand.Rand, b *built, cfg M) {
+		// a different string that Go's lenient decoder maps to the same bytes
+		const al = "ABCDEFGHIJKLMNOPQRSTUVWXYZabcdefghijklmnopqrstuvwxyz0123456789-_"
+		sib := func(h string) string {
+			if r.Intn(2) == 0 {
+				k := r.Intn(len(h))
+				return h[:k] + "\n" + h[k:]
+			}
+			last := strings.IndexByte(al, h[len(h)-1])
+			return h[:len(h)-1] + string(al[last^(1+r.Intn(3))])
+		}
+		if b.Typ == "create" {
+			b.SD["deltaHash"] = sib(b.SD["deltaHash"].(string))
+		} else {
+			b.Signed["deltaHash"] = sib(b.Signed["deltaHash"].(string))
+		}
+	}},
 	{"delta/hash-malformed", "cur", func(r *rand.Rand, b *built, cfg M) {
 		if b.Typ == "create" {
 			b.SD["deltaHash"] = "xyz"
